@@ -21,6 +21,15 @@
 //       reads the case lines of harness/emit_x86.cpp (same grammar; <diag>, pad= and bind= are ignored) and calls
 //       InstAPI::validate(Arch::kX86 | kX64, BaseInst(id, options, extra), operands, count) directly.
 //       output line:  <line number> <error code> <error name>      (-1 E_PARSE:<what> / -1 E_NAME like emit_x86)
+//   c13_names --mode recycle-x86 --in FILE --res FILE
+//       "recycled emitter across modes": the same case lines; per line and per emitter kind (x86::Assembler, x86::Builder,
+//       x86::Compiler; validation on: kValidateAssembler | kValidateIntermediate) the case is emitted by a FRESH emitter on a
+//       fresh CodeHolder of the line's mode and by an emitter OBJECT that was first attached to a holder of the OTHER x86 mode,
+//       used there (one nop), and taken off it in one of three ways - code.detach(&e); holder.reset(kHard) with the same
+//       holder re-initialised for the new mode; holder destroyed.  Builder/Compiler results include finalize().
+//       output line:  <line number> asm <fresh> <way0> <way1> <way2> builder <fresh> <w0> <w1> <w2> compiler <fresh> <w0> <w1> <w2>
+//       each result = <error name>[/pre=..][/post=..][/finalize=..]:<hex of .text or '-'>; the oracle (python) demands
+//       recycled == fresh.
 //   c13_names --mode validate-a64 --in FILE --res FILE
 //       reads the case lines of harness/emit_a64.cpp ([<tag> TAB] text; parsed by emit_a64's own operand parser, which this
 //       file includes unmodified) and calls InstAPI::validate(Arch::kAArch64, ...).
@@ -352,6 +361,99 @@ static bool parse_typed_reg(const std::string& s, uint32_t& type, uint32_t& id) 
   return parse_regtype(s.substr(0, d), type) && parse_u32(s.substr(d + 1), id);
 }
 
+struct X86Case {
+  Arch arch = Arch::kX64;
+  uint32_t inst_id = 0, options = 0;
+  bool unknown_name = false;
+  RegOnly extra;
+  Operand_ ops[6];
+  size_t op_count = 0;
+  std::vector<std::pair<bool, uint32_t>> pre, post;   // (is bind, label number / pad size)
+};
+
+static constexpr uint32_t kNumLabels = 8;
+
+// Parses one case line of harness/emit_x86.cpp.  Labels: label n gets id n (every run creates 8 labels first on a fresh
+// CodeHolder).  Returns nullptr or the name of the field that is malformed.
+static const char* parse_x86_case(const std::vector<std::string>& tk, X86Case& c) {
+  c.extra.reset();
+  for (int i = 0; i < 6; i++) c.ops[i].reset();
+  if (tk.size() < 5) return "too-few-tokens";
+  if (tk[0] == "32") c.arch = Arch::kX86; else if (tk[0] == "64") c.arch = Arch::kX64; else return "arch";
+  if (tk[1] != "v" && tk[1] != "n") return "diag";
+  if (tk[2][0] == '#') { if (!parse_u32(tk[2].substr(1), c.inst_id)) return "inst-id"; }
+  else {
+    c.inst_id = InstAPI::string_to_inst_id(c.arch, tk[2].c_str(), tk[2].size());
+    if (c.inst_id == 0) c.unknown_name = true;
+  }
+  {
+    char* e = nullptr;
+    errno = 0;
+    unsigned long long v = strtoull(tk[3].c_str(), &e, 16);
+    if (*e || errno || v > 0xFFFFFFFFull) return "options";
+    c.options = uint32_t(v);
+  }
+  if (tk[4] != "-") {
+    uint32_t t, id;
+    if (!parse_typed_reg(tk[4], t, id)) return "extra";
+    c.extra.init(Reg::from_type_and_id(RegType(t), id));
+  }
+  for (size_t i = 5; i < tk.size(); i++) {
+    const std::string& t = tk[i];
+    bool is_post = t[0] == '+';
+    std::string pp = is_post ? t.substr(1) : t;
+    if (pp.compare(0, 4, "pad=") == 0 || pp.compare(0, 5, "bind=") == 0) {
+      bool bind = pp[0] == 'b';
+      uint32_t n;
+      if (!parse_u32(pp.substr(bind ? 5 : 4), n) || (bind ? n >= kNumLabels : n > (1u << 20))) return "prepost";
+      (is_post ? c.post : c.pre).push_back(std::make_pair(bind, n));
+      continue;
+    }
+    if (is_post) return "prepost";
+    if (c.op_count >= 6) return "too-many-operands";
+    if (t == "-") { c.op_count++; continue; }
+    std::vector<std::string> f = vh::split(t, ',');
+    if (f[0] == "r") {
+      uint32_t ty, id;
+      if (f.size() != 3 || !parse_regtype(f[1], ty) || !parse_u32(f[2], id)) return "reg-operand";
+      c.ops[c.op_count++] = Reg::from_type_and_id(RegType(ty), id);
+    }
+    else if (f[0] == "i") {
+      int64_t v;
+      if (f.size() != 2 || !parse_s64(f[1], v)) return "imm-operand";
+      c.ops[c.op_count++] = Imm(v);
+    }
+    else if (f[0] == "l") {
+      uint32_t ln;
+      if (f.size() != 2 || !parse_u32(f[1], ln) || ln >= kNumLabels) return "label-operand";
+      c.ops[c.op_count++] = Label(ln);
+    }
+    else if (f[0] == "m") {
+      if (f.size() != 9) return "mem-operand-fields";
+      uint32_t size, shift, seg, bcst, addr;
+      int64_t off;
+      if (!parse_u32(f[1], size) || size > 255 || !parse_u32(f[4], shift) || shift > 3 || !parse_s64(f[5], off) ||
+          !parse_u32(f[6], seg) || seg > 7 || !parse_u32(f[7], bcst) || bcst > 7 || !parse_u32(f[8], addr) || addr > 3) return "mem-operand-values";
+      uint32_t bt = 0, bid = 0, it = 0, iid = 0;
+      bool is_abs = false;
+      if (f[2] == "-" || f[2] == "abs") is_abs = true;
+      else if (f[2][0] == 'L') {
+        uint32_t ln;
+        if (!parse_u32(f[2].substr(1), ln) || ln >= kNumLabels) return "mem-label";
+        bt = uint32_t(RegType::kLabelTag);
+        bid = ln;
+      }
+      else if (!parse_typed_reg(f[2], bt, bid)) return "mem-base";
+      if (f[3] != "-" && !parse_typed_reg(f[3], it, iid)) return "mem-index";
+      uint32_t sig = uint32_t(OperandType::kMem) | (bt << 3) | (it << 8) | (addr << 14) | (shift << 16) | (seg << 18) | (bcst << 21) | (size << 24);
+      if (is_abs) bid = uint32_t(uint64_t(off) >> 32);
+      c.ops[c.op_count++] = x86::Mem(OperandSignature{sig}, bid, iid, int32_t(uint32_t(uint64_t(off) & 0xFFFFFFFFu)));
+    }
+    else return "operand-kind";
+  }
+  return nullptr;
+}
+
 static int run_validate_x86(const std::string& in_path, const std::string& out_path) {
   FILE* in = fopen(in_path.c_str(), "r");
   FILE* out = fopen(out_path.c_str(), "w");
@@ -361,7 +463,6 @@ static int run_validate_x86(const std::string& in_path, const std::string& out_p
   char* line = nullptr;
   size_t cap = 0;
   unsigned long lineno = 0;
-  constexpr uint32_t kNumLabels = 8;
   while (getline(&line, &cap, in) > 0) {
     lineno++;
     size_t n = strlen(line);
@@ -369,85 +470,114 @@ static int run_validate_x86(const std::string& in_path, const std::string& out_p
     vh::set_case(line);
     std::vector<std::string> tk = tokens_of(line);
     if (tk.empty() || tk[0][0] == '#') continue;
-    const char* bad = nullptr;
-    Arch arch = Arch::kX64;
-    uint32_t inst_id = 0, options = 0;
-    bool unknown_name = false;
-    RegOnly extra; extra.reset();
-    Operand_ ops[6];
-    size_t op_count = 0;
-    for (int i = 0; i < 6; i++) ops[i].reset();
-    do {
-      if (tk.size() < 5) { bad = "too-few-tokens"; break; }
-      if (tk[0] == "32") arch = Arch::kX86; else if (tk[0] == "64") arch = Arch::kX64; else { bad = "arch"; break; }
-      if (tk[1] != "v" && tk[1] != "n") { bad = "diag"; break; }
-      if (tk[2][0] == '#') { if (!parse_u32(tk[2].substr(1), inst_id)) { bad = "inst-id"; break; } }
-      else {
-        inst_id = InstAPI::string_to_inst_id(arch, tk[2].c_str(), tk[2].size());
-        if (inst_id == 0) unknown_name = true;
-      }
-      {
-        char* e = nullptr;
-        errno = 0;
-        unsigned long long v = strtoull(tk[3].c_str(), &e, 16);
-        if (*e || errno || v > 0xFFFFFFFFull) { bad = "options"; break; }
-        options = uint32_t(v);
-      }
-      if (tk[4] != "-") {
-        uint32_t t, id;
-        if (!parse_typed_reg(tk[4], t, id)) { bad = "extra"; break; }
-        extra.init(Reg::from_type_and_id(RegType(t), id));
-      }
-      for (size_t i = 5; i < tk.size() && !bad; i++) {
-        const std::string& t = tk[i];
-        if (t[0] == '+' || t.compare(0, 4, "pad=") == 0 || t.compare(0, 5, "bind=") == 0) continue;   // code position: no input of validate()
-        if (op_count >= 6) { bad = "too-many-operands"; break; }
-        if (t == "-") { op_count++; continue; }
-        std::vector<std::string> f = vh::split(t, ',');
-        if (f[0] == "r") {
-          uint32_t ty, id;
-          if (f.size() != 3 || !parse_regtype(f[1], ty) || !parse_u32(f[2], id)) { bad = "reg-operand"; break; }
-          ops[op_count++] = Reg::from_type_and_id(RegType(ty), id);
-        }
-        else if (f[0] == "i") {
-          int64_t v;
-          if (f.size() != 2 || !parse_s64(f[1], v)) { bad = "imm-operand"; break; }
-          ops[op_count++] = Imm(v);
-        }
-        else if (f[0] == "l") {
-          uint32_t ln;
-          if (f.size() != 2 || !parse_u32(f[1], ln) || ln >= kNumLabels) { bad = "label-operand"; break; }
-          ops[op_count++] = Label(ln);      // emit_x86 creates labels 0..7 first in a fresh CodeHolder: label n has id n
-        }
-        else if (f[0] == "m") {
-          if (f.size() != 9) { bad = "mem-operand-fields"; break; }
-          uint32_t size, shift, seg, bcst, addr;
-          int64_t off;
-          if (!parse_u32(f[1], size) || size > 255 || !parse_u32(f[4], shift) || shift > 3 || !parse_s64(f[5], off) ||
-              !parse_u32(f[6], seg) || seg > 7 || !parse_u32(f[7], bcst) || bcst > 7 || !parse_u32(f[8], addr) || addr > 3) { bad = "mem-operand-values"; break; }
-          uint32_t bt = 0, bid = 0, it = 0, iid = 0;
-          bool is_abs = false;
-          if (f[2] == "-" || f[2] == "abs") is_abs = true;
-          else if (f[2][0] == 'L') {
-            uint32_t ln;
-            if (!parse_u32(f[2].substr(1), ln) || ln >= kNumLabels) { bad = "mem-label"; break; }
-            bt = uint32_t(RegType::kLabelTag);
-            bid = ln;
-          }
-          else if (!parse_typed_reg(f[2], bt, bid)) { bad = "mem-base"; break; }
-          if (f[3] != "-" && !parse_typed_reg(f[3], it, iid)) { bad = "mem-index"; break; }
-          uint32_t sig = uint32_t(OperandType::kMem) | (bt << 3) | (it << 8) | (addr << 14) | (shift << 16) | (seg << 18) | (bcst << 21) | (size << 24);
-          if (is_abs) bid = uint32_t(uint64_t(off) >> 32);
-          ops[op_count++] = x86::Mem(OperandSignature{sig}, bid, iid, int32_t(uint32_t(uint64_t(off) & 0xFFFFFFFFu)));
-        }
-        else { bad = "operand-kind"; break; }
-      }
-    } while (0);
+    X86Case c;
+    const char* bad = parse_x86_case(tk, c);
     if (bad) { fprintf(out, "%lu -1 E_PARSE:%s\n", lineno, bad); continue; }
-    if (unknown_name) { fprintf(out, "%lu -1 E_NAME\n", lineno); continue; }
-    BaseInst inst(inst_id, InstOptions(options), extra);
-    Error err = InstAPI::validate(arch, inst, ops, op_count, ValidationFlags::kNone);
+    if (c.unknown_name) { fprintf(out, "%lu -1 E_NAME\n", lineno); continue; }
+    BaseInst inst(c.inst_id, InstOptions(c.options), c.extra);
+    Error err = InstAPI::validate(c.arch, inst, c.ops, c.op_count, ValidationFlags::kNone);
     fprintf(out, "%lu %u %s\n", lineno, unsigned(err), DebugUtils::error_as_string(err));
+  }
+  fflush(out);
+  fclose(out);
+  free(line);
+  return 0;
+}
+
+// ---------------------------------------------------------------------------------------------------------------
+// recycled emitter across modes: one emitter OBJECT attached to a CodeHolder of the OTHER x86 mode, used, detached, then
+// attached to a holder of the case's mode with validation on.  Must behave exactly like a fresh emitter of the same kind.
+// ---------------------------------------------------------------------------------------------------------------
+static const DiagnosticOptions kDiagAll = DiagnosticOptions::kValidateAssembler | DiagnosticOptions::kValidateIntermediate;
+
+// Emits the case through `e` (already attached to `code`); returns "<error name>:<hex of .text>".
+static std::string emit_case_on(BaseEmitter* e, CodeHolder& code, const X86Case& c, bool needs_finalize) {
+  static const std::vector<uint8_t> nops(1u << 20, 0x90);
+  Label labels[kNumLabels];
+  for (uint32_t i = 0; i < kNumLabels; i++) labels[i] = e->new_label();
+  auto prepost = [&](const std::vector<std::pair<bool, uint32_t>>& ops) -> Error {
+    for (auto& p : ops) {
+      Error err = p.first ? e->bind(labels[p.second]) : (p.second ? e->embed(nops.data(), p.second) : Error::kOk);
+      if (err != Error::kOk) return err;
+    }
+    return Error::kOk;
+  };
+  Error pre = prepost(c.pre);
+  Error err = e->emit_inst(BaseInst(c.inst_id, InstOptions(c.options), c.extra), c.ops, c.op_count);
+  Error post = prepost(c.post);
+  Error fin = needs_finalize ? e->finalize() : Error::kOk;
+  std::string out = DebugUtils::error_as_string(err);
+  if (pre != Error::kOk) out += std::string("/pre=") + DebugUtils::error_as_string(pre);
+  if (post != Error::kOk) out += std::string("/post=") + DebugUtils::error_as_string(post);
+  if (fin != Error::kOk) out += std::string("/finalize=") + DebugUtils::error_as_string(fin);
+  const CodeBuffer& buf = code.text_section()->buffer();
+  out += ":" + (buf.size() ? vh::hex(buf.data(), buf.size()) : std::string("-"));
+  return out;
+}
+
+// way 0: code.detach(emitter); 1: holder.reset() and the SAME holder re-initialised for the new mode; 2: holder destroyed
+template<typename EmitterT>
+static std::string recycled(const X86Case& c, int way, bool needs_finalize) {
+  Arch other = c.arch == Arch::kX64 ? Arch::kX86 : Arch::kX64;
+  EmitterT e;
+  CodeHolder* a = new CodeHolder();
+  if (a->init(Environment(other)) != Error::kOk || a->attach(&e) != Error::kOk) { delete a; return "E_SETUP:-"; }
+  e.add_diagnostic_options(kDiagAll);
+  (void)e.emit_inst(BaseInst(x86::Inst::kIdNop), nullptr, 0);       // the emitter has been used in the other mode
+  CodeHolder b;
+  CodeHolder* target = &b;
+  if (way == 0) { a->detach(&e); }
+  else if (way == 1) { a->reset(ResetPolicy::kHard); target = a; }
+  else { delete a; a = nullptr; }
+  std::string out;
+  if (target->init(Environment(c.arch)) != Error::kOk || target->attach(&e) != Error::kOk) out = "E_SETUP:-";
+  else {
+    e.add_diagnostic_options(kDiagAll);
+    out = emit_case_on(&e, *target, c, needs_finalize);
+    target->detach(&e);
+  }
+  delete a;
+  return out;
+}
+
+template<typename EmitterT>
+static std::string fresh(const X86Case& c, bool needs_finalize) {
+  CodeHolder code;
+  EmitterT e;
+  if (code.init(Environment(c.arch)) != Error::kOk || code.attach(&e) != Error::kOk) return "E_SETUP:-";
+  e.add_diagnostic_options(kDiagAll);
+  std::string out = emit_case_on(&e, code, c, needs_finalize);
+  code.detach(&e);
+  return out;
+}
+
+static int run_recycle_x86(const std::string& in_path, const std::string& out_path) {
+  FILE* in = fopen(in_path.c_str(), "r");
+  FILE* out = fopen(out_path.c_str(), "w");
+  if (!in || !out) { fprintf(stderr, "c13_names: cannot open files\n"); return 2; }
+  static char obuf[1 << 16];
+  setvbuf(out, obuf, _IOFBF, sizeof obuf);
+  char* line = nullptr;
+  size_t cap = 0;
+  unsigned long lineno = 0;
+  while (getline(&line, &cap, in) > 0) {
+    lineno++;
+    size_t n = strlen(line);
+    while (n && (line[n - 1] == '\n' || line[n - 1] == '\r')) line[--n] = 0;
+    vh::set_case(std::string("recycle ") + line);
+    std::vector<std::string> tk = tokens_of(line);
+    if (tk.empty() || tk[0][0] == '#') continue;
+    X86Case c;
+    const char* bad = parse_x86_case(tk, c);
+    if (bad || c.unknown_name) { fprintf(out, "%lu E_PARSE\n", lineno); continue; }
+    fprintf(out, "%lu", lineno);
+    fprintf(out, " asm %s", fresh<x86::Assembler>(c, false).c_str());
+    for (int w = 0; w < 3; w++) fprintf(out, " %s", recycled<x86::Assembler>(c, w, false).c_str());
+    fprintf(out, " builder %s", fresh<x86::Builder>(c, true).c_str());
+    for (int w = 0; w < 3; w++) fprintf(out, " %s", recycled<x86::Builder>(c, w, true).c_str());
+    fprintf(out, " compiler %s", fresh<x86::Compiler>(c, true).c_str());
+    for (int w = 0; w < 3; w++) fprintf(out, " %s", recycled<x86::Compiler>(c, w, true).c_str());
+    fputc('\n', out);
   }
   fflush(out);
   fclose(out);
@@ -572,6 +702,7 @@ int main(int argc, char** argv) {
   vh::Ctx& c = vh::ctx();
   std::string mode = c.opt("mode", "names");
   if (mode == "validate-x86") return c13::run_validate_x86(c.opt("in"), c.opt("res"));
+  if (mode == "recycle-x86") return c13::run_recycle_x86(c.opt("in"), c.opt("res"));
   if (mode == "validate-a64") return c13::run_validate_a64(c.opt("in"), c.opt("res"));
   if (mode == "emit-a64-warm") return c13::run_validate_a64(c.opt("in"), c.opt("res"), c.opt("validate") == "1" ? 2 : 1);
   if (mode == "probe-a64") return c13::run_probe_a64();
